@@ -524,24 +524,12 @@ def qform_check(Q, a, eps, ulp_t):
     return 'bad', worst
 
 
-# S-C04d (NIfTI-2 exact 180 degrees: ValueError / sqrt(eps64) error) is classified only while
-# known_findings.json lists it with status `known`; once it is `fixed` those cases must pass the
-# strict predicate (and the probe S_C04d guards against its return)
-S04D_KNOWN = True
-
-
-def set_s04d_from_findings(findings):
-    global S04D_KNOWN
-    st = [f.get('status') for f in findings if f.get('id') == 'S-C04d']
-    S04D_KNOWN = (not st) or st[0] == 'known'
-
-
 def near180_known(ver, w, axis_aligned, raised):
-    """Known-finding id for a qform read-back that exceeds the strict tolerance (but is within the
-    relaxed bound), or that raised; None = a violation."""
+    """Known-finding id for a qform read-back that exceeds the strict tolerance but is within the
+    relaxed bound; None = a violation.  An exception, or an exact 180 degree rotation (w == 0)
+    beyond the strict tolerance, is always a violation (S-C04d was repaired in /repo c5ca499a; its
+    return is also guarded by the probe S_C04d)."""
     w = abs(w) if w is not None else 1.0
-    if S04D_KNOWN and ver == 2 and w <= 1e-7:
-        return None if axis_aligned else 'S-C04d'
     if raised:
         return None
     return 'S-C04c' if w > 0 else None
@@ -554,9 +542,6 @@ KNOWN_TXT = {
               '((t - M.1) + M.1 in float64), rotation part exact',
     'S-C04c': 'qform read-back of a rotation within ~60 degrees of (but not exactly) 180 degrees loses precision as '
               'eps/|w| (only b,c,d are stored; fillpositive snaps |w2| < 3 eps to 0): error up to ~1e4 eps32 (NIfTI-1)',
-    'S-C04d': 'NIfTI-2 qform of a rotation by exactly 180 degrees about a non-coordinate axis: get_qform raises '
-              'ValueError(w2 should be positive) or returns an error of ~sqrt(eps64) (threshold 3*eps64 is below the '
-              'normalisation error of the eigh quaternion)',
 }
 
 
@@ -1488,7 +1473,6 @@ def run(chk: Check):
                     'K by eigh) with the contracts stated in LemmasR.v',
                     'ideal arithmetic: ModelR.v is over Coq R; the float layer of quat2mat/mat2quat/set_qform/get_qform/MGH '
                     'is measured against the stated tolerances, not proved']
-    set_s04d_from_findings(chk.findings)
     chk.build(gen_tables=gen_tables)
     chk.run_probes()
     if not chk.model_ok:
@@ -1528,14 +1512,8 @@ def run(chk: Check):
         if o['refused']:
             n_refused += 1
             chk.refusal(o['refused'].split(':')[1])
-            w = a['w']
-            if ('w2 should be positive' in o['refused'] and w is not None
-                    and near180_known(o['ver'], w, a['axis_aligned'], True) == 'S-C04d'):
-                chk.known('S-C04d', KNOWN_TXT['S-C04d'])
-                chk.tagc('known:S-C04d')
-            else:
-                chk.violation('property_violation', case=case, impl_output=o['refused'],
-                              predicate='constructing/saving an image with this header raised')
+            chk.violation('property_violation', case=case, impl_output=o['refused'],
+                          predicate='constructing/saving an image with this header raised')
             continue
         chk.tagc('shortcut:' + ('fired' if (o['hashdr'] and o['c1']) else 'no'))
         pred, known = pred_nifti(case, o)
@@ -1688,8 +1666,9 @@ def run(chk: Check):
         'C04_qform_roundtrip_ideal carries the same exclusion (finding S-C04c)',
         'np.linalg.svd / eigh are oracles (polar, eigmax): C04_qform_roundtrip_ideal is conditional on their three '
         'contracts (shown satisfiable by C04_qform_oracles_satisfiable, not shown to hold of LAPACK)',
-        'the NIfTI-2 exact-180-degree failure (S-C04d) is a floating-point effect (|1 - |bcd|^2| > 3 eps64 after eigh) and '
-        'is outside the ideal model: in exact arithmetic w = 0 is recovered (C04_quat_roundtrip_partial)',
+        'C04_normalised_quaternion_meets_threshold is stated under the standard rounding model (each stored component '
+        '= exact normalised component x (1 + delta), |delta| <= u): it is not derived from an IEEE model of '
+        'q / sqrt(q @ q) in longdouble; the probe S_C04d and the exact-180 NIfTI-2 cases check it on every run',
         'update_header theorem is over opaque values: `close` (np.allclose) is an input of the model; its exact-rational '
         'definition Model.allclose is compared with np.allclose on every run but no theorem links the two',
     ]
@@ -1743,7 +1722,6 @@ def run(chk: Check):
 
 def replay(chk, obj):
     ensure_impl_path()
-    set_s04d_from_findings(chk.findings)
     c = obj.get('case')
     if not isinstance(c, dict) or 'scn' not in c:
         if obj.get('inputs', {}) and obj['inputs'].get('probe_fn'):
